@@ -34,9 +34,18 @@ def main():
                 for e in m.get("edits", []):
                     fp = os.path.join(dst, e["file"])
                     src = open(fp).read()
-                    if src.count(e["old"]) != 1:
-                        raise SystemExit(f"mutant {arg}: pattern occurs {src.count(e['old'])} times in {e['file']}")
-                    open(fp, "w").write(src.replace(e["old"], e["new"]))
+                    n = src.count(e["old"])
+                    if e.get("nth") == "all" and n >= 1:
+                        src = src.replace(e["old"], e["new"])
+                    elif isinstance(e.get("nth"), int) and n > e["nth"]:
+                        parts = src.split(e["old"])
+                        k = e["nth"]
+                        src = e["old"].join(parts[: k + 1]) + e["new"] + e["old"].join(parts[k + 1 :])
+                    elif n == 1:
+                        src = src.replace(e["old"], e["new"])
+                    else:
+                        raise SystemExit(f"mutant {arg}: pattern occurs {n} times in {e['file']}")
+                    open(fp, "w").write(src)
             else:
                 raise SystemExit(f"unknown op {op}")
         env = dict(os.environ, VERIF_REPO=dst)
